@@ -84,7 +84,7 @@ def run(ctx):
     corp = harness.corpus_files()
     rng.shuffle(corp)
     texts = [t for _, t in corp[:ctx.budget(30, 200)] if len(t) < ctx.budget(8000, 40000)]
-    for doc in harness.gen_documents(rng, ctx.budget(80, 600), max_depth=4):
+    for doc in harness.gen_documents(rng, ctx.budget(80, 600), max_depth=4, pool="parseable"):
         texts.append(docs.render(doc, docs.Layout())[0])
     product = list(all_option_tuples())
     seen_values = set()
